@@ -116,6 +116,11 @@ func (c *Ctx) threadClasses() []*threadClass {
 	for _, fn := range c.P.Funcs {
 		Instrs(fn, func(ins ssa.Instruction) {
 			if g, ok := ins.(*ssa.Go); ok {
+				if ir.JoinedOnAllPaths(g) == nil {
+					// the spawner waits for it on every path: it runs inside the spawner's thread class
+					// (the typestate engine follows such a go statement like a call)
+					return
+				}
 				if f := fnOfValue(g.Call.Value); f != nil && c.P.IsRepoFunc(f) {
 					get("go:"+c.FK(f), "single").roots = append(get("go:"+c.FK(f), "single").roots, f)
 				}
@@ -204,7 +209,7 @@ func conflictPossible(a, b *threadClass, cat string) bool {
 }
 
 func c20(c *Ctx) {
-	c.R.Explanation = "C20: a may-race over-approximation by lockset analysis (E1+E5) on the SSA of /repo. Thread classes are discovered from the code: actors of the daemon's run.Group (fan start-up goroutine = FanController.Run before its inner group; sensor monitor; web servers), actors of each controller's inner group (control loop, RPM monitor), interrupt functions, REST handlers (function values registered on echo routes), prometheus Collect/Describe methods, and `go` statements. For every class the fields (struct type, field), map contents and package-level variables read or written in its call tree (VTA call graph) are collected together with the must-lockset at the access, computed by an interprocedural typestate whose states are the sets of held mutexes (Lock/RLock add, Unlock/deferred Unlock remove; callee summaries as state relations). Reflective reads by JSON encoding (echo Context.JSON*, json.Marshal) are added from a summary: every exported, non-`json:\"-\"` field of every dynamic type of the argument, recursively through pointers, structs and maps (maps are iterated). A race candidate is a pair of accesses to the same key from two concurrently runnable classes (or two instances of a multi-instance class), at least one a write, with disjoint locksets; pairs that cannot concern the same object are excluded by the private/shared rule (a fan's start-up happens-before its own control loop and RPM monitor; per-fan classes of different fans own different controller / fan / control-loop objects; curves, sensors, registries and globals are shared; a PidLoop reached from a curve's Evaluate is shared, one reached only from a control loop is private). Every candidate on today's tree is recorded as a known finding; any new (key, class pair) is a violation. Map iteration against a map write is flagged crash-capable. Limitations: type-based object abstraction; only mutex synchronisation is modelled (sync/atomic typed fields are not plain accesses and never flagged)."
+	c.R.Explanation = "C20: a may-race over-approximation by lockset analysis (E1+E5) on the SSA of /repo. Thread classes are discovered from the code: actors of the daemon's run.Group (fan start-up goroutine = FanController.Run before its inner group; sensor monitor; web servers), actors of each controller's inner group (control loop, RPM monitor), interrupt functions, REST handlers (function values registered on echo routes), prometheus Collect/Describe methods, and `go` statements. For every class the fields (struct type, field), map contents and package-level variables read or written in its call tree (VTA call graph) are collected together with the must-lockset at the access, computed by an interprocedural typestate whose states are the sets of held mutexes (Lock/RLock add, Unlock/deferred Unlock remove; callee summaries as state relations). Reflective reads by JSON encoding (echo Context.JSON*, json.Marshal) are added from a summary: every exported, non-`json:\"-\"` field of every dynamic type of the argument, recursively through pointers, structs and maps (maps are iterated). A race candidate is a pair of accesses to the same key from two concurrently runnable classes (or two instances of a multi-instance class), at least one a write, with disjoint locksets; pairs that cannot concern the same object are excluded by the private/shared rule (a fan's start-up happens-before its own control loop and RPM monitor; per-fan classes of different fans own different controller / fan / control-loop objects; curves, sensors, registries and globals are shared; a PidLoop reached from a curve's Evaluate is shared, one reached only from a control loop is private). Every candidate on today's tree is recorded as a known finding; any new (key, class pair) is a violation. Map iteration against a map write is flagged crash-capable. Mutex modes: the lockset has two bits per mutex (held in some mode, held exclusively; RLock sets only the first); two accesses are protected against each other only if some mutex is held by both and by at least one of them exclusively - a write under RLock is unprotected against other RLock holders. Each bit is computed by its own two-state typestate (projection of the powerset automaton), so the number of mutexes is not limited. Limitations: type-based object abstraction; only mutex synchronisation is modelled (sync/atomic typed fields are not plain accesses and never flagged)."
 	c.R.Assumptions = append(c.R.Assumptions,
 		"run.Group.Add actors run concurrently; echo handlers and prometheus collectors run on library goroutines and may run concurrently with themselves",
 		"reprint.This copies interface-kinded values shallowly, so Snapshot*Map() hands out the live objects",
@@ -228,29 +233,38 @@ func c20(c *Ctx) {
 		}
 		return tb.Of(v, nil).String()
 	}
-	isLockCall := func(cc ssa.CallInstruction) (string, int) {
+	// lock events: name of the mutex, +1 acquire / -1 release, shared (RLock/RUnlock) or exclusive
+	isLockCall := func(cc ssa.CallInstruction) (string, int, bool) {
 		n := ir.CallName(cc)
 		switch n {
-		case "(*sync.Mutex).Lock", "(*sync.RWMutex).Lock", "(*sync.RWMutex).RLock":
-			return lockName(cc.Common().Args[0]), +1
-		case "(*sync.Mutex).Unlock", "(*sync.RWMutex).Unlock", "(*sync.RWMutex).RUnlock":
-			return lockName(cc.Common().Args[0]), -1
+		case "(*sync.Mutex).Lock", "(*sync.RWMutex).Lock":
+			return lockName(cc.Common().Args[0]), +1, false
+		case "(*sync.RWMutex).RLock":
+			return lockName(cc.Common().Args[0]), +1, true
+		case "(*sync.Mutex).Unlock", "(*sync.RWMutex).Unlock":
+			return lockName(cc.Common().Args[0]), -1, false
+		case "(*sync.RWMutex).RUnlock":
+			return lockName(cc.Common().Args[0]), -1, true
 		}
-		return "", 0
+		return "", 0, false
 	}
+	hasShared := map[string]bool{}
 	for _, fn := range c.P.Funcs {
 		if load_FuncPkgPath(fn) == PkgUI {
 			continue
 		}
 		Calls(fn, func(cc ssa.CallInstruction) {
-			if n, d := isLockCall(cc); d > 0 {
+			if n, d, shared := isLockCall(cc); d > 0 {
 				if _, ok := lockIDs[n]; !ok {
 					lockIDs[n] = len(lockIDs)
+				}
+				if shared {
+					hasShared[n] = true
 				}
 			}
 		})
 	}
-	if len(lockIDs) > 6 {
+	if len(lockIDs) > 30 {
 		c.R.Undecided("threads", "locks", "(whole program)", "-", sprintf("%d distinct mutexes: more than the lockset engine is configured for", len(lockIDs)))
 		return
 	}
@@ -259,43 +273,70 @@ func c20(c *Ctx) {
 		lockNames = append(lockNames, n)
 	}
 	sort.Strings(lockNames)
+	for i, n := range lockNames {
+		lockIDs[n] = i
+	}
 	c.R.Note("mutexes", strings.Join(lockNames, ", "))
-	nStates := 1 << uint(len(lockIDs))
-	spec := ir.TSpec{
-		N: nStates,
-		Instr: func(ins ssa.Instruction) []ir.Mask {
-			cc, ok := ins.(ssa.CallInstruction)
-			if !ok {
-				return nil
-			}
-			n, d := isLockCall(cc)
-			if d == 0 {
-				return nil
-			}
-			id, known := lockIDs[n]
-			if !known {
-				return nil
-			}
-			tr := make([]ir.Mask, nStates)
-			for s := 0; s < nStates; s++ {
+	// the lockset of an access has two bits per mutex: held in some mode (2*id) and held exclusively (2*id+1).
+	// Each bit is an independent two-state typestate (not held / held), so the must-lockset is computed one
+	// bit at a time (the projection of the powerset automaton: transitions on one mutex never depend on another).
+	type lockBit struct {
+		name      string
+		exclusive bool
+	}
+	var bitsToRun []lockBit
+	for _, n := range lockNames {
+		bitsToRun = append(bitsToRun, lockBit{n, true})
+		if hasShared[n] {
+			bitsToRun = append(bitsToRun, lockBit{n, false})
+		}
+	}
+	specFor := func(lb lockBit) ir.TSpec {
+		return ir.TSpec{
+			N: 2,
+			Instr: func(ins ssa.Instruction) []ir.Mask {
+				cc, ok := ins.(ssa.CallInstruction)
+				if !ok {
+					return nil
+				}
+				n, d, shared := isLockCall(cc)
+				if d == 0 {
+					return nil
+				}
+				if n != lb.name {
+					return ir.Ident(2)
+				}
+				if lb.exclusive {
+					if shared {
+						return ir.Ident(2) // RLock / RUnlock do not change exclusive ownership
+					}
+				}
 				if d > 0 {
-					tr[s] = ir.Bit(s | (1 << uint(id)))
-				} else {
-					tr[s] = ir.Bit(s &^ (1 << uint(id)))
+					return ir.AllTo(2, 1)
 				}
-			}
-			return tr
-		},
-		Callees: func(call ssa.CallInstruction) []*ssa.Function {
-			var out []*ssa.Function
-			for _, f := range c.Callees(call) {
-				if load_FuncPkgPath(f) != PkgUI {
-					out = append(out, f)
+				return ir.AllTo(2, 0)
+			},
+			Callees: func(call ssa.CallInstruction) []*ssa.Function {
+				var out []*ssa.Function
+				for _, f := range c.Callees(call) {
+					if load_FuncPkgPath(f) != PkgUI {
+						out = append(out, f)
+					}
 				}
+				return out
+			},
+			NoReturn: func(ins ssa.Instruction) bool { return c.noReturnCall(ins) },
+		}
+	}
+	// protectedPair: some mutex is held by both accesses, by at least one of them exclusively
+	protectedPair := func(x, y uint64) bool {
+		for id := range lockNames {
+			h, e := uint64(1)<<uint(2*id), uint64(1)<<uint(2*id+1)
+			if x&h != 0 && y&h != 0 && (x&e != 0 || y&e != 0) {
+				return true
 			}
-			return out
-		},
-		NoReturn: func(ins ssa.Instruction) bool { return c.noReturnCall(ins) },
+		}
+		return false
 	}
 
 	// functions reachable from a curve's Evaluate (ownership context of PidLoop)
@@ -318,19 +359,40 @@ func c20(c *Ctx) {
 			accs[tc] = append(accs[tc], a)
 		}
 		for _, root := range tc.roots {
-			ts := ir.NewTS(spec)
-			ts.Run(root, ir.Bit(0), func(fn *ssa.Function, ins ssa.Instruction, m ir.Mask) {
-				if m == 0 || load_FuncPkgPath(fn) == PkgUI {
-					return
-				}
-				must := uint64(1<<uint(len(lockIDs))) - 1
-				for s := 0; s < nStates; s++ {
-					if m.Has(s) {
-						must &= uint64(s)
+			type site struct {
+				fn   *ssa.Function
+				must uint64
+			}
+			sites := map[ssa.Instruction]*site{}
+			var order []ssa.Instruction
+			for bi, lb := range bitsToRun {
+				id := lockIDs[lb.name]
+				ts := ir.NewTS(specFor(lb))
+				ts.Run(root, ir.Bit(0), func(fn *ssa.Function, ins ssa.Instruction, m ir.Mask) {
+					if m == 0 || load_FuncPkgPath(fn) == PkgUI {
+						return
 					}
-				}
-				c.collectAccesses(fn, ins, must, tb, add)
-			})
+					st := sites[ins]
+					if st == nil {
+						if bi != 0 {
+							return
+						}
+						st = &site{fn: fn}
+						sites[ins] = st
+						order = append(order, ins)
+					}
+					if m == ir.Bit(1) { // held in every calling context and on every path
+						if lb.exclusive {
+							st.must |= uint64(1)<<uint(2*id+1) | uint64(1)<<uint(2*id)
+						} else {
+							st.must |= uint64(1) << uint(2*id)
+						}
+					}
+				})
+			}
+			for _, ins := range order {
+				c.collectAccesses(sites[ins].fn, ins, sites[ins].must, tb, add)
+			}
 		}
 	}
 
@@ -354,7 +416,7 @@ func c20(c *Ctx) {
 			B := classes[j]
 			for _, x := range accs[A] {
 				for _, y := range accs[B] {
-					if x.key != y.key || (!x.write && !y.write) || x.locks&y.locks != 0 {
+					if x.key != y.key || (!x.write && !y.write) || protectedPair(x.locks, y.locks) {
 						continue
 					}
 					if A == B && &x == &y {
